@@ -357,6 +357,50 @@ fn check_vertex(
             }
         }
     }
+    // fields whose generated type is a bare parameter: whether they are compact is a fact of the SOURCE definition
+    // (`#[codec(compact)] f: T` / `f: Compact<T>`), not of the instantiation (`f: T` with `T = Compact<u32>` has the
+    // same registry entry); decided on the source program
+    if v.codec == 1 {
+        for def in &prog.defs {
+            let mut p = vec![v.root_name().to_string()];
+            p.extend(def.path());
+            let Some(item) = em.items.get(&p) else { continue };
+            let src_lists: Vec<Vec<&Field>> = match &def.body {
+                Body::Struct(f) => vec![f.iter().map(|(_, f)| f).collect()],
+                Body::Enum(vs) => vs.iter().map(|x| x.fields.iter().map(|(_, f)| f).collect()).collect(),
+            };
+            let gen_lists: Vec<&[FieldAst]> = match &item.kind {
+                ItemKind::Struct(f) => vec![f.list()],
+                ItemKind::Enum(vs) => vs.iter().map(|x| x.fields.list()).collect(),
+            };
+            for (sl, gl) in src_lists.iter().zip(gen_lists.iter()) {
+                let sl: Vec<&&Field> = sl.iter().filter(|f| !matches!(f.ty, Ty::Phantom(_))).collect();
+                for (sf, gf) in sl.iter().zip(gl.iter()) {
+                    let ty = &gf.ty;
+                    let g = squash(&quote::quote!(#ty).to_string());
+                    let is_param = g.starts_with('_') && g[1..].chars().all(|c| c.is_ascii_digit());
+                    if !is_param {
+                        continue;
+                    }
+                    let want = sf.compact || matches!(&sf.ty, Ty::Compact(x) if matches!(**x, Ty::Param(_)));
+                    if want != gf.compact {
+                        ctx.violation(
+                            if want { "C09/codec/compact-marker-missing" } else { "C09/codec/compact-marker-spurious" },
+                            format!(
+                                "{}: the source field is {}compact (`{}`) but the generated parameter-typed field {} #[codec(compact)]",
+                                def.name,
+                                if want { "" } else { "not " },
+                                prog.ty_src(&sf.ty, None),
+                                if gf.compact { "carries" } else { "lacks" }
+                            ),
+                            replay(v),
+                            size,
+                        );
+                    }
+                }
+            }
+        }
+    }
     // the second generation entry point (a standalone struct from a field list: create_composite_ir_kind +
     // upcast_composite) obeys the codec switch too, whatever derives are configured
     for t in &el.registry.types {
